@@ -128,8 +128,19 @@ def sc_hook_registrations():
         return ' '.join(f'{n}:{"hooked" if get_package_conf_or_none(n) is not None else "LOST"}' for n in ('c15_pkg_alpha.sub.mod', 'c15_pkg_beta.mod', 'c15_pkg_alpha.other.mod', 'c15_pkg_alpha.unrelated'))
     return a, b, joint
 
+def sc_pool_after_warmup():
+    """both threads generate a checker when the object pools hold exactly ONE idle scratch object (left by a warm-up in the parent, before the fork)"""
+    from beartype.door import is_bearable
+    from beartype import beartype
+    import typing
+    class Fresh0: pass
+    is_bearable([Fresh0()], typing.List[Fresh0])          # warm-up: acquires and releases the pooled scratch objects once
+    class FreshA: pass
+    class FreshB: pass
+    return (lambda: is_bearable([FreshA()], typing.List[FreshA])), (lambda: is_bearable([1], typing.Dict[str, typing.List[FreshB]])), lambda: ''
+
 SCENARIOS = {f.__name__[3:]: f for f in (sc_conf_repr, sc_conf_new, sc_conf_violation_message, sc_typehint_same, sc_is_bearable_same_hint, sc_is_bearable_two_hints,
-                                         sc_decorate_two, sc_decorate_class_and_check, sc_is_subhint, sc_hook_registrations)}
+                                         sc_decorate_two, sc_decorate_class_and_check, sc_is_subhint, sc_hook_registrations, sc_pool_after_warmup)}
 
 # ---------------------------------------------------------------- the scheduler (runs in a forked child)
 
